@@ -380,6 +380,24 @@ class Group:
         if len(self.samples) < 2 and m:
             self.samples.append({"cmd": cmd_str(cmdt), "stdout": short(pt.out.strip(), 500), "sighash_line": m.group(0), "reference_digest": ref.hex()})
 
+    # -- tap refused the transaction pair built for its own address: read the control block from the log of a plain run
+    def fallback_log_channel(self, i, tail):
+        pt, cmdt, okt = self.run_tap([], tail, use_pty=True, index=i, mode="index-pty")
+        if not okt:
+            return
+        m = RE_CTL.search(pt.err + pt.out)
+        if not m:
+            self.v("pty-control-missing", "no 'Final control object' line in the pty log", i, (pt.err + pt.out)[-300:])
+            return
+        cb = bytes.fromhex(m.group(1))
+        okr, why, info = R.taproot_verify_script_path(self.Q, self.scripts[i], cb)
+        if not okr:
+            if info.get("q") == self.Q:
+                self.v("parity-wrong:q=%s" % ("odd" if info["q_parity"] else "even"), "control byte %02x does not match the output key parity" % cb[0], i, cb.hex())
+            else:
+                self.v("control-block-invalid:n=%d:index=%d" % (self.n, i), "(log channel) BIP341 verification of (script, control block) against the printed output key fails: " + why, i,
+                       "script=%s control=%s Q=%s" % (self.scripts[i].hex(), cb.hex(), self.Q.hex()))
+
     # -- one spending index
     def index_case(self, i):
         st = self.stats
@@ -395,6 +413,7 @@ class Group:
         # (b) with transactions, pipes
         p, cmd, ok = self.run_tap(self.txopts, tail, index=i, mode="index-tx")
         if not ok:
+            self.fallback_log_channel(i, tail)
             return None
         a = self.get_addr(p, i, "index-tx")
         if a is not None and a != self.addr:
